@@ -1403,3 +1403,6 @@ func Entails(facts []Lin, nonneg map[string]bool, t Lin) bool {
 	c := &bctx{pre: &Pre{}, upper: map[string]int64{}, nonneg: nonneg, budget: 200000}
 	return c.entails(facts, t, 5)
 }
+
+// Coef returns the coefficient of symbol s.
+func (a Lin) Coef(s string) int64 { return a.t[s] }
